@@ -5,8 +5,8 @@ package c19
 // leading / trailing blanks, empty, glob characters, quotes, backslashes, $, shell keywords,
 // a fragment that is another binding's name) in EVERY position of the array, followed / preceded
 // by contexts with identifier-like names that have their own handlers.  Judged by Coq against
-// the word-level model C19_WModel (word splitting + failglob of the framework's unquoted
-// expansions) and the predicate C19_WSpec.PW.
+// the model C19_Model of the repaired hook.sh (a686454: every expansion quoted, a name is one
+// candidate whatever it contains) and the predicate C19_WSpec.PW.
 
 import (
 	"os/exec"
@@ -34,8 +34,8 @@ var userNames = []string{
 	"in", "be true now", "be false now", "x : y", "if x then", "all for one", "x ! y", "x [ y", "x { y }", "x [[ y ]]", "x test y", "x fi",
 }
 
-// bash builtins and other words that must not appear as a bare word of a generated name unless
-// C19_Corr.shell_table knows them: running them is not modelled (output, blocking, recursion)
+// bash builtins and other words that must not appear as a bare word of a generated name: a
+// hook.sh without the repair a686454 would RUN them (output, blocking, recursion)
 var hazardWords = map[string]bool{}
 
 func init() {
@@ -44,7 +44,7 @@ func init() {
 	}
 }
 
-// shellTable mirrors the WORDS of C19_Corr.shell_table (what the model knows the shell to know).
+// shellTable: words every bash knows by itself (keywords, a few builtins, the options of `type`).
 var shellTable = map[string]bool{}
 
 func init() {
@@ -308,14 +308,19 @@ func namesSystematic(all bool) []Input {
 	return ins
 }
 
-// namesCorpus: the witnesses of C19_WProofs (fragment, keyword, glob), the Example of
-// C19_Properties.v (C19_words_hyp_met) and the shape a batched read of the binding names breaks.
+// namesCorpus: regression witnesses of the defects repaired by a686454 (a word of the name is
+// another handler / a shell keyword / a builtin; glob characters), the Example of
+// C19_Properties.v (C19_names_hyp_met) and the shape a batched read of the binding names breaks.
 func namesCorpus() []Input {
 	zero := func(string) []int { return nil }
 	return []Input{
 		{Ctxs: []Ctx{mkCtx("schedule", "every minute")}, Defined: handlers([]string{"__on_schedule::every", "__main__"}, zero)},
 		{Ctxs: []Ctx{mkCtx("added", "Monitor pods in cache tier")}, Defined: handlers([]string{"__main__"}, zero)},
 		{Ctxs: []Ctx{mkCtx("schedule", "what?")}, Defined: handlers([]string{"__main__"}, zero)},
+		{Ctxs: []Ctx{mkCtx("added", "a*"), mkCtx("schedule", "b1")}, Defined: handlers([]string{"__on_schedule::b1", "__main__"}, zero)},
+		{Ctxs: []Ctx{mkCtx("sync", "[a]"), mkCtx("schedule", "b1")}, Defined: handlers([]string{"__on_schedule::b1", "__main__"}, zero)},
+		{Ctxs: []Ctx{mkCtx("schedule", "Every 20  minutes"), mkCtx("added", "Monitor pods in cache tier"), mkCtx("sync", "what? [a] *"), mkCtx("added", "pods")},
+			Defined: handlers([]string{"__on_kubernetes::pods::added", "__main__", "__on_schedule::Every"}, zero)},
 		{Ctxs: []Ctx{mkCtx("schedule", "Every 20  minutes"), mkCtx("modified", "\t say \"hi\" $HOME a\\b "), mkCtx("added", "pods")},
 			Defined: handlers([]string{"__on_kubernetes::pods::added", "__main__"}, zero)},
 		{Ctxs: []Ctx{mkCtx("schedule", ""), mkCtx("sync", "pods"), mkCtx("added", "pods")},
